@@ -16,6 +16,8 @@ pub struct Ctx {
     pub feeder: bool,
     /// metric names under which the current workload deliberately registered collectors of different kinds
     pub mixed_kind_names: Vec<String>,
+    /// hash of the current case's generated arguments (for workloads whose distinctness is arguments x call sites)
+    pub case_tag: u64,
 }
 
 impl Ctx {
